@@ -24,6 +24,39 @@ CLAIMED = {
    technique="Coq proof (direct from the model's definitions, inversion of the column parser) + correspondence run + direct oracle",
    design="7/C19"),
 }
+CLAIMED.update({
+ "C03": dict(
+   text="Partial proof + full differential decision. Proved in Coq (C03_find_complete/sound/unique/no_crash): in every valid directory, looking an id up finds exactly the entry whose run covers it and no other. The archive-level clause (every spec-valid foreign archive opens to exactly the tiles its directories address, bytes = tile-data offset + entry offset, header and metadata as stored) is decided by running the Rust readers (sync and async) and the extracted Coq model of from_reader/read_directories on archives emitted by an independent spec-level writer (section permutations and gaps, leaf trees of depth 0-3, run lengths, back-referencing/unordered/duplicated offsets, empty metadata, 4 codecs) and on the upstream fixtures, and comparing both with an independent spec reader (greatest-entry lookup).",
+   note="Trusted: Coq kernel (closed under the global context) for the directory-lookup theorems; for the archive-level clause the evidence is differential (model vs implementation vs independent reader), not a theorem yet - stated as such in Props/C03.v; extraction + driver + harness; codecs/JSON as oracles.",
+   technique="Coq proof (induction over the ascending entry list) for single-directory lookup + correspondence run against the executable model + independent spec reader",
+   design="7/C03"),
+ "C04": dict(
+   text="Coq theorems C04_refines_map_partial, C04_step, C04_independence, C04_empty: by an invariant over the three internal maps (Inv: distinct keys; every in-memory tile's hash has stored bytes with that hash and lists the tile in its reference set; reference sets non-empty, duplicate-free and exact; bytes stored exactly for referenced hashes) preserved by add/replace/remove, every finite history over {add, replace, remove, lookup, list, count} from any archive value representing a map produces exactly the outputs of a finite-map specification machine and ends representing the final map; editing one id never changes another. The save+reopen step is not yet carried by a theorem (needs C01's composition) and is decided by the correspondence run (model vs Rust, snapshots of the internal maps through the verif hook after every step) and the direct oracle (BTreeMap reference; exhaustive histories of length 3/4 over 3 ids x 3 colliding contents incl. saves, random histories to 600/5000 ops, foreign initial archives).",
+   note="Trusted: Coq kernel (closed under the global context); hand-written model of tile_manager.rs; premise hist_collision_free (no 64-bit hash collision among the contents that occur; C04_collision_breaks_map shows it is necessary); extraction + driver + harness; hook verif_snapshot.",
+   technique="Coq proof (invariant + refinement to a finite-map machine, induction over the history) + correspondence run + reference-map oracle",
+   design="7/C04"),
+ "C06": dict(
+   text="Coq theorems C06_fits_or_spills_partial, C06_pointers_describe_chunks, C06_chunks_resolve: whenever write_directories succeeds it either wrote the whole list as the root with an empty leaf section (and the list's serialisation is within 16257 bytes) or wrote, at the starting position, a root within 16257 bytes that is the serialisation of leaf pointers only, with the stream left right behind it and nothing before the start changed; the pointers and leaf section describe consecutive chunks of the list (run 0, first tile id, offset, exact length, leaves back to back, each decoding to its chunk) and the chunks concatenate to the original entries - for every codec, API family, starting position and leaf size. Totality of the doubling loop is not proved (stated in Props/C06.v). Tie: model vs Rust on lists steered around the (16257, 16384] window for all codecs, start sizes {default, 1, 2, 7, 1000, > n}, positions {0, 1, 127, 5000}, sync/async; direct oracle resolving root and leaves with an independent decoder and with the library's own reader.",
+   note="Trusted: Coq kernel (closed under the global context); model of write_directories.rs over the stream model; law codec_inv; premise that every leaf blob is shorter than 2^32 bytes (the Rust cast `as u32`); gen_params.py for MAX_ROOT_DIR_LENGTH and the default leaf size; extraction + driver + harness.",
+   technique="Coq proof (induction on the loop fuel and on the chunk list; stream lemmas) + correspondence run + independent resolution oracle",
+   design="7/C06"),
+ "C08": dict(
+   text="Coq theorems C08_header, C08_directory, C08_read_directories, C08_open, C08_lookup, C08_lookup_xyz, C08_zxy: in the model every unchecked +, -, pow, capacity request and unbounded recursion of the Rust code is an explicit Crash; for EVERY byte string, codec and range the header parser, directory parser, directory walk (depth-limited, checked additions), full and range-filtered open, lookups by id and by coordinates, and zxy on every u64 return a value or an error. Re-writing an opened archive is covered by the differential run and the oracle only. Tie and search: crafted hazard corpus (one archive per class: counts near 2^64, id/offset sums overflowing, zero first offset, cyclic and 40-deep leaf chains, offsets near 2^64, ...), every prefix and every boundary-value substitution of small valid archives, header-field and varint-field mutations, all in a sandboxed worker (panic, abort, stack overflow, OOM kill and time-out are attributed to the case).",
+   note="Trusted: Coq kernel (closed under the global context); hand-written model (tied by the correspondence run on the None codec, Ok/Err/Crash compared); assumption that serde_json returns (json_total); allocator and stack behaviour are observed, not modelled; inputs declaring more than 300000 tiles are outside the claim.",
+   technique="Coq proof (sweep over every Crash site of the model's readers; recursion on depth fuel) + correspondence run + sandboxed crash oracle",
+   design="7/C08"),
+ "C10": dict(
+   text="Coq theorems C10_retention_invariant and C10_retention: in every state reachable by edits the builder stores exactly one copy of each content some in-memory tile refers to and none that no tile refers to (invariant Inv, by induction over the history). The layout clauses (tile-data length = sum of distinct contents, identical contents share one offset, maximal runs) are decided by the direct oracle on every written archive (independent spec reader) and by the correspondence run (Rust finish vs the extracted model, byte-exact archives), with duplicates between in-memory and reader-backed tiles and non-deduplicated foreign sources; their theorem (finish = specification layout) is in progress.",
+   note="Trusted: Coq kernel (closed under the global context); model of tile_manager.rs; premise hist_collision_free; extraction + driver + harness; hook verif_snapshot for the retention clause on the implementation.",
+   technique="Coq proof (store invariant by induction over the history) + correspondence run + independent-reader layout oracle",
+   design="7/C10"),
+ "C14": dict(
+   category="other",
+   text="The DEFLATE/brotli/zstd implementations cannot be modelled here; what is proved (C14_unknown, C14_none, C14_inverse) is the glue of util/compress.rs: Unknown is an error in every entry point, None is the identity for every chunking, and compress-then-decompress is the identity given the codec's inverse law. The law itself - the substance of the property for the three real codecs - is validated, not proved: empty, 1-byte, compressible, incompressible and multi-megabyte inputs x 4 codecs x one-shot / streamed with 1-byte, small and large write chunks and small reads x sync/async, cross-decoded by the upstream crates called directly and, for gzip, by Python's zlib.",
+   note="Level `other`: a theorem about the glue plus differential validation of the codec law. Trusted: the codec crates; Coq kernel for the glue; harness.",
+   technique="Coq proof of the selection/identity glue + differential validation of the codec inverse law against upstream and unrelated decoders",
+   design="7/C14"),
+})
 PENDING_REASON = "check not built yet in this revision of /verif (the design in DESIGN.md section 7 covers it); no claim is made until its theorems and correspondence run exist"
 props = [json.loads(l)["id"] for l in open(os.path.join(ROOT, "properties.jsonl"))]
 checks = []
